@@ -398,6 +398,16 @@ def fam_probe(r, sid):
     b.unlock(c, key, b.steps[h]["lid"])
     b.sleep(r.choice([400, 600]))                                # let the release reach the follower's copy (the race itself: scenarios.stale_probe)
     b.lock(c, key, timeout=0, exp=30, flag=F_PROBE)              # free now: granted by the leader
+    # a shared key with exactly one free slot, the holders replicated and settled in the follower's copy: the probe is
+    # admitted by the leader (locked <= Count), so a follower answering from its own copy must not refuse it either
+    n = r.choice([1, 2, 3])
+    hs = [b.lock(c, "k2", timeout=0, exp=30, count=n, eflag=ZERO_AOF) for _ in range(n)]
+    b.sleep(r.choice([500, 700]))
+    p1 = b.lock(c, "k2", timeout=0, exp=30, count=n, flag=F_PROBE)               # one slot left: granted
+    b.sleep(r.choice([500, 700]))
+    b.lock(c, "k2", timeout=0, exp=30, count=n, flag=F_PROBE)                    # full now: TIMEOUT from leader and follower alike
+    for h2 in hs + [p1]:
+        b.unlock(c, "k2", b.steps[h2]["lid"])
     return b.done()
 
 
